@@ -48,6 +48,13 @@ SelectFail(s) == /\ Step /\ sel' = [sel EXCEPT ![s] = NoSel]
 Close(s) == /\ sel[s] # NoSel /\ Step /\ sel' = [sel EXCEPT ![s] = NoSel]
             /\ held' = [held EXCEPT ![s] = FALSE] /\ UNCHANGED <<unclaimed, has>>
 
+\* the connection of s ENDS while it has a mailbox selected (after a command that did not
+\* parse and LOGOUT, by EOF, or dropped inside IDLE); s comes back on a new connection with
+\* nothing selected.  For \Recent this is Close - provided the server really forgets the
+\* selection of a connection that is gone
+Gone(s) == /\ sel[s] # NoSel /\ Step /\ sel' = [sel EXCEPT ![s] = NoSel]
+           /\ held' = [held EXCEPT ![s] = FALSE] /\ UNCHANGED <<unclaimed, has>>
+
 \* a delivery into m: to some read-write selection of m if there is one, else unclaimed
 Deliver(m) == IF RwOf(m) = {}
               THEN unclaimed' = [unclaimed EXCEPT ![m] = TRUE] /\ UNCHANGED held
@@ -68,7 +75,7 @@ Status(s, m) == Step /\ UNCHANGED <<sel, unclaimed, held, has>>
 
 Next == \E s \in Sess :
           \/ \E m \in Mbx, w \in BOOLEAN : Select(s, m, w)
-          \/ SelectFail(s) \/ Close(s) \/ Noop(s) \/ StoreRecent(s)
+          \/ SelectFail(s) \/ Close(s) \/ Gone(s) \/ Noop(s) \/ StoreRecent(s)
           \/ \E m \in Mbx : Append(s, m) \/ Copy(s, m) \/ Move(s, m) \/ Status(s, m)
 Spec == Init /\ [][Next]_vars
 
